@@ -172,10 +172,17 @@ def _jsonable(x):
 
 
 def load_known():
-    if not os.path.exists(KNOWN_FILE):
-        return []
-    with open(KNOWN_FILE) as f:
-        return json.load(f)["findings"]
+    out = []
+    if os.path.exists(KNOWN_FILE):
+        with open(KNOWN_FILE) as f:
+            out.extend(json.load(f)["findings"])
+    pend = os.path.join(VERIF, "kf_pending")   # development only; merged into known_findings.json before registration
+    if os.path.isdir(pend):
+        for fn in sorted(os.listdir(pend)):
+            if fn.endswith(".json"):
+                with open(os.path.join(pend, fn)) as f:
+                    out.extend(json.load(f)["findings"])
+    return out
 
 
 # ----------------------------------------------------------------------
